@@ -197,6 +197,8 @@ func scenarioFromDag(rng *rand.Rand, d *dag, n int, maxOrders, randomOrders int,
 		nd.dumpAll(c)
 		nd.dumpDag(c)
 	}
+	// frames of the reference node (every processed round still cached)
+	ref.dumpFrames(c, ref.processedRounds())
 	sc.cs = []*Case{c}
 	sc.canon = c.Canon()
 	return sc
